@@ -227,3 +227,18 @@ Print Assumptions C09_wheel_after_unlocks.
 Theorem C09_wheel_tiny_panics : forall T, (T < c_rtimer_accuracy)%N -> rt_panics T = true.
 Proof. exact TimeWheelProofs.rt_after_tiny_panics. Qed.
 Print Assumptions C09_wheel_tiny_panics.
+(* ---- the CURRENT source of ServantProxy.TarsInvoke: the effective timeout ----
+   regenerated from tars/servant.go on every run (Xlate/TarsInvokeEquiv.v): the time left to the caller's deadline if the
+   context has one, else the per-call timeout of current.SetClientTimeout, else the proxy's timeout; told to the server in
+   ITimeout; a timer (context.WithTimeout) of exactly that duration is armed when - and only when - the caller brought no
+   deadline, whatever the sign of the timeout. *)
+From TarsV Require Import Xlate.GoSem Gen.Translated Xlate.TarsInvokeEquiv.
+Theorem C09_source_effective_timeout : forall req proxy_ms (has_dl : bool) until ct out,
+  int31 proxy_ms -> int31 (snd (fst ct)) -> int63 until ->
+  go_requestf_RequestPacket_ITimeout req = wrapS 32 proxy_ms ->
+  let dl := if has_dl then Some until else None in
+  let t := eff_timeout proxy_ms (per_call ct) dl in
+  tr_TarsInvoke_timeout req proxy_ms has_dl until ct out =
+  Next ((out ++ (if has_dl then [] else [t]))%list, t, with_itimeout req (eff_itimeout proxy_ms (per_call ct) dl)).
+Proof. exact TarsInvokeEquiv.tr_TarsInvoke_timeout_equiv. Qed.
+Print Assumptions C09_source_effective_timeout.
